@@ -15,5 +15,6 @@ try:
     d=json.loads(sys.stdin.read().strip().splitlines()[-1])
 except Exception as e:
     print(\"$n seed $s: NO OUTPUT\", e); sys.exit()
-new=[f.get(\"key\") for f in d.get(\"failures\",[]) if f.get(\"key\") not in known]
+pref=[k.get(\"witness_key_prefix\") for k in json.load(open(\"known_findings.json\"))[\"findings\"] if k.get(\"status\")==\"open\" and k.get(\"bounded\")==\"$n\" and k.get(\"witness_key_prefix\")]
+new=[f.get(\"key\") for f in d.get(\"failures\",[]) if f.get(\"key\") not in known and not any(str(f.get(\"key\")).startswith(q) for q in pref)]
 print(\"$n seed $s:\", d.get(\"status\"), d.get(\"evaluations\"), \"NEW:\" if new else \"ok\", new[:5])"'
